@@ -1,10 +1,4 @@
 
-(** val negb : bool -> bool **)
-
-let negb = function
-| true -> false
-| false -> true
-
 type nat =
 | O
 | S of nat
